@@ -10,7 +10,7 @@ NOTES = ("Technique family: static analysis only. Every check re-extracts MIR fa
 STATUS = {
     "C03": dict(
         claimed=True,
-        technique="MIR census + provenance (single writer, record field origins, must-pass counter update, write census of Order.vol)",
+        technique="MIR census + provenance (single writer, record field origins, write census of Order.vol) + interprocedural must-flow of every fill volume into the cumulative counter (directly or through returned accumulators) + reset-body rule",
         text=("Decides on every path of the code: the trade log has one append-only writer; each record's fields originate from "
               "clock/passive side+price/min volume/aggressor+passive ids; both volumes decrease by the logged amount; the counter is "
               "updated after every fill and reset only by reset_trade_vol; Order.vol has no writer outside the fill and modify_order. "
@@ -18,11 +18,10 @@ STATUS = {
         note=TRUST + "Assumes valid histories (volumes >= 1, traded volume < 2^32)."),
     "C04": dict(
         claimed=True,
-        technique="order-entity typestate (abstract interpretation with branch refinement, context-sensitive summaries) + write census + effect analysis of guard-failing CFG slices",
+        technique="order-entity typestate (abstract interpretation with branch refinement, context-sensitive summaries; components: status, queue membership, side, pending volume, kind, end/arrival time stamped from the clock) judged on API exit states + write census + effect analysis of guard-failing CFG slices",
         text=("Sound abstract interpretation of the status/priority-map membership of every order entity through place/cancel/modify/"
               "loader and their callees: every status write checked against the predecessor table in all calling contexts, API entry->exit "
-              "relation within the documented machine, terminal orders never written. Exact census rules for end_time/arr_time pairing with "
-              "the clock, immutability of side/trader/id/start_vol, dense ids, and empty effect of the guard-failing slices (redundant requests)."),
+              "relation within the documented machine, terminal orders never written. end_time := clock exactly for orders that become terminal in the call and arr_time := clock exactly for placed orders (exit-state rule, wherever in the call tree the stamp is written),  immutability of side/trader/id/start_vol, dense ids, and empty effect of the guard-failing slices (redundant requests)."),
         note=TRUST + "Assumes ids refer to existing orders; Filled<=>vol==0 is itself checked (filled-iff-zero)."),
     "C02": dict(
         claimed=True,
@@ -35,7 +34,7 @@ STATUS = {
         note=TRUST + "Assumes valid histories (resting volume < 2^32, LEVELS*tick < 2^32, valid ids)."),
     "C01": dict(
         claimed=True,
-        technique="provenance of priority keys (K1/K3), sibling mirror of side wrappers (K2), loop-guard/exit-edge analysis of the matching loops (K4), fill-rule origins (K5), typestate exit states (K6)",
+        technique="provenance of priority keys (K1/K3), sibling mirror of side wrappers (K2), loop-guard/exit-edge/termination analysis of the matching loops and condition census of every matching call (K4), fill-rule origins (K5), typestate exit states (K6)",
         text=("Decides the premises K1-K6 from which agreement with a reference price-time engine follows by induction (given invariant I, itself "
               "proved by the typestate analysis, and BTreeMap ordering): key price = order price through a monotone side transform, key time = clock / "
               "strictly increasing stamp at the call, loops pop the head of the opposite side under `vol > 0 && limit admits best` and leave only when a "
@@ -52,7 +51,7 @@ STATUS = {
         note=TRUST + "Assumes queue times stay below 2^64-1."),
     "C06": dict(
         claimed=True,
-        technique="refined branch-condition analysis of modify_order's dispatch + effect summaries (priority map untouched in place) + typestate of the replacement path + write census",
+        technique="finite case analysis over (status, Option shapes of new_price/new_vol, v < current volume, price on grid) with branch conditions evaluated per case on modify_order's CFG + effect summaries (priority map untouched in place) + typestate of the replacement path + write census",
         text=("Decides on modify_order's CFG: in-place iff (None, Some(v)) with v strictly below the current volume, that path never writes a priority "
               "map and only the volume; (None, None) reaches no effectful call; the other dispatches pass exactly requested/kept price and volume to one "
               "replacement routine that removes, assigns, re-matches under the trading guard and re-queues iff not Filled under a fresh key; identity fields "
@@ -60,7 +59,7 @@ STATUS = {
         note=TRUST + "Assumes the order id exists and modify volumes >= 1."),
     "C12": dict(
         claimed=True,
-        technique="grid-alignment abstract domain over price provenance (remainder-guard dominance with path-feasibility refinement, interprocedural through call sites) + effect analysis of rejecting slices",
+        technique="grid-alignment abstract domain over price provenance (remainder-guard dominance / per-case unreachability, interprocedural through call sites) + finite case analysis of create_order (off-grid: no effect and an error; on-grid and market: always stored) + effect analysis of forwarding layers",
         text=("Decides that every value that can reach Order.price (field writes and constructor calls) is a market sentinel, an existing order price, or "
               "dominated by `v % tick_size == 0` on every feasible path from the public API; that the rejecting slices of create_order have no effect and "
               "return an error; and that Market/Env/MarketEnv creation paths perform their own effects only after the creation succeeded."),
@@ -74,7 +73,7 @@ STATUS = {
         note=TRUST),
     "C07": dict(
         claimed=True,
-        technique="writer/reader table agreement read from the MIR of the generated serde impls + loader provenance/typestate (loader mode) + sibling comparison of save/load + panic census of the load path",
+        technique="writer/reader table agreement read from the MIR of the generated serde impls + loader provenance/typestate (loader mode) + semantic save/load rule on inlined views (serializer per `pretty`, truncating file sink, every fallible result propagated) + panic census of the load path",
         text=("Decides the structural core of snapshot fidelity: the serialised key set equals the reader struct's accepted key set by name and type, "
               "no field of any serialised type is skipped/renamed/defaulted beyond the rebuilt indexes; the loader copies every other field from the "
               "same-named reader field and rebuilds the indexes by filing exactly the Active entries on their own side under stored key/id/remaining "
@@ -83,7 +82,7 @@ STATUS = {
         note=TRUST + "serde_json rejects strict prefixes of an object document (trusted)."),
     "C08": dict(
         claimed=True,
-        technique="shape rules on the step CFG (take, single enumerate loop, dominance of clock writes over process_event, origin of the time expressions), mutator census, dispatch name-role agreement, sibling comparison Env/MarketEnv",
+        technique="shape rules on the step CFG (take/replace-with-empty, single loop with enumerate index or verified position counter, dominance of clock writes over process_event, origin of the time expressions, benign emptiness guards), mutator census, reset-body rule, dispatch name-role agreement, sibling comparison Env/MarketEnv",
         text=("Decides: the queue is emptied by mem::take and exactly that batch is iterated once, every item gets `start + index` then one process_event, "
               "the clock ends at `start + step_size`, the volume reset precedes the loop, nothing else mutates the book; process_event dispatches all three "
               "instruction kinds with fields bound by name; submission functions queue exactly one same-named event. Replay equivalence with a plain book "
@@ -98,7 +97,7 @@ STATUS = {
         note=TRUST + "Soundness of the effect analysis rests on: no interior mutability (checked), no unsafe (none in the workspace), std semantics of push/take."),
     "C11": dict(
         claimed=True,
-        technique="side-qualifier / quantity agreement of push origins against the frozen (bid, ask) conventions; loop-range and index-equality checks; writer census; getter origin checks",
+        technique="side-qualifier / quantity agreement of push origins against the frozen (bid, ask) conventions read through symbolic loop items (index / zip / enumerate loops alike); coverage of every level and asset; writer census; getter origin checks; must-flow of fill volumes into the recorded counter (shared with C03)",
         text=("Decides alignment and faithfulness structurally: one push per series per step, each series fed from the same-side same-quantity field at the "
               "same level index, per-asset indexes agree, traded volume read from the counter after the loop, no other writers, getters return the series "
               "their names say."),
@@ -127,7 +126,7 @@ STATUS = {
         note=TRUST + "get_order_book_mut is a documented escape hatch (noted, not a violation)."),
     "C20": dict(
         claimed=True,
-        technique="token-program reconstruction of both derive macros from their MIR (uniformity in the fields) + fact extraction of a generated witness crate (exhaustive struct shapes up to a bound) + the repository's own derive sites",
+        technique="fact extraction of a generated witness crate (exhaustive struct shapes up to a bound) + the repository's own derive sites + deviation rules on the derive entry points (no restricting/reordering/grouping of fields, only the identifier read, count never consulted) + token-program reconstruction when the macro uses the accumulate-in-a-loop idiom",
         text=("Exhaustive over the bounded witness family (quick: all shapes with 1..3 fields over {A, B, nested set} + long shapes up to 8 fields, both "
               "macros; thorough: all shapes up to 6 fields + a 1/37 sample of the 8-field shapes) that each generated update is the straight-line "
               "declaration-order sequence of field updates on the shared env/rng, and a uniformity argument read off the macro's own code (only the "
@@ -135,7 +134,7 @@ STATUS = {
         note=TRUST + "quote/syn/proc-macro2 semantics of push_* calls (trusted)."),
     "C16": dict(
         claimed=True,
-        technique="grid-alignment / sign abstract domains over price provenance, sibling checks of the helper functions, element provenance through iterator chains and closure captures, Bernoulli-comparison census, panic-site census with discharge table",
+        technique="grid-alignment / sign abstract domains over price provenance on inlined helper views, sibling checks of the helper functions, element provenance through iterator chains / explicit loops and closure captures, per-slot model of the random agents (closure, helper and loop spellings), Bernoulli-comparison census, constructor origin checks, panic-site census with discharge table",
         text=("Decides for the built-in agents: every submitted limit price is on the agent's tick grid (including after the final clamp), buys quote "
               "at or below and sells at or above the observed mid, ids/volumes/ticks come from the agent's own configuration, cancellations only "
               "target own ids that passed the Active filter, random agents hold at most one live order per slot, every draw-vs-probability comparison "
@@ -144,7 +143,7 @@ STATUS = {
         note=TRUST + "Assumes agent tick = environment tick, non-empty ranges, finite distribution parameters."),
     "C17": dict(
         claimed=True,
-        technique="sign-domain abstract interpretation of the momentum update bodies with feasibility of guarded placement sites, origin check of the recurrence, mirror/sibling checks",
+        technique="sign-domain abstract interpretation of the momentum update bodies with feasibility of guarded placement sites (only loop / draw / sign-of-M conditions admitted), origin checks of the recurrence, of the documented probability formula, of the first-step and constructor values, mirror/sibling checks",
         text=("Decides direction and symmetry structurally: for M > 0 exactly the buy sites are feasible, for M < 0 exactly the sell sites, for M = 0 none; "
               "the probability compared with the draw is non-negative and even in M; the stored recurrence is m(1-decay)+decay(P-p); buy/sell "
               "branches and single/multi-asset variants mirror each other. Sound sign abstraction under the stated positive-parameter assumptions; "
@@ -152,7 +151,7 @@ STATUS = {
         note=TRUST + "Assumes demand, scale, order_ratio, n > 0 and decay in (0, 1]."),
     "C18": dict(
         claimed=True,
-        technique="forwarding conformance of the PyO3 wrappers on their MIR: expected-callee table keyed by the public Python names, name-role and qualifier-token agreement, constant tables of the conversions, tuple-layout vs documentation, signature scan",
+        technique="forwarding conformance of the PyO3 wrappers on their MIR: expected-callee table keyed by the public Python names, name-role and qualifier-token agreement (incl. (bid, ask) pair getters and constructors), whole-list rule for record getters, constant tables of the conversions, tuple-layout vs documentation, signature scan, StepEnv/StepEnvNumpy sibling comparison",
         text=("Decides that the Python classes are literal forwarders: each wrapper calls exactly the expected core function with arguments bound by name, "
               "reads the side/quantity its name says, converts bool<->Side and Status->u8 as documented, lays records out as documented, takes only core "
               "integer types (so out-of-range ints are rejected by PyO3 before the body), maps OrderError to ValueError without own effects, seeds and uses "
@@ -160,7 +159,7 @@ STATUS = {
         note=TRUST + "PyO3 0.20 extraction semantics (OverflowError on out-of-range ints) are trusted."),
     "C19": dict(
         claimed=True,
-        technique="translation validation between documentation tables (Rust doc comments, Python docstrings parsed with ast/regex) and the element/key/column origins of the builders extracted from MIR",
+        technique="translation validation between documentation tables (Rust doc comments, Python docstrings parsed with ast/regex) and the element/key/column origins of the builders extracted from MIR through an abstract array/dictionary model (literal prefix + per-level block of one complete level loop; key templates evaluated with constant arguments)",
         text=("Static conformance check, exactly as the property names it: for all four array builders, both market-data dictionaries and both data-frame "
               "helpers the documented layout (index -> quantity, key -> series, column -> field) equals the layout the code builds, element by element, "
               "including lengths and the per-level loop. Array contents for concrete states are not computed."),
